@@ -328,7 +328,12 @@ func c36GenRW(r *Rand, big bool) c36RW {
 			ip := Pick(r, [][]byte{nil, r.Bytes(16), {1, 2, 3}, r.Bytes(5), append(make([]byte, 12), r.Bytes(4)...)})
 			in.H.Src = hex.EncodeToString(ip)
 		case 1:
-			in.H.Sec = Pick(r, []int64{-1, -1 << 31, math.MaxUint32 + 1, 1 << 33, -62135596800, 1 << 40})
+			// outside the 32-bit seconds field, incl. instants where time.Time.UnixNano
+			// is undefined (before 1678 / after 2262) and whose wrapped value may land
+			// back inside the representable range
+			in.H.Sec = Pick(r, []int64{-1, -1 << 31, math.MaxUint32 + 1, 1 << 33, -62135596800, 1 << 40,
+				9223372037, 9223372036 + int64(r.Intn(1<<20)), 20000000000, 18446744074, 18446744073 + int64(r.U64()%(1<<32)),
+				-9223372037, -9223372036 - int64(r.U64()%(1<<32)), 253402300799, int64(r.U64() % (1 << 38))})
 		default:
 			if len(in.Ps) == 0 {
 				in.Ps = append(in.Ps, c36GenPkt(r, false))
